@@ -2,8 +2,9 @@
    (journal ID PATH FMT XACTS ((VISITED ACCT) ...) ((FLAGS SYM ANNOT?) ...))   ANNOT? = () | (AMT DATE) -> "ID csv HEX" "ID csvd HEX" "ID emacs HEX" "ID xmlt HEX"
                                               "ID xmla HEX" "ID xmlc HEX"
      FMT   = ((default|rfc|bare date|code|payee|account|commodity|quantity|state|note) ...)
-     XACTS = ((LINE Y M D STATE CODE? PAYEE NOTE? (POST ...)) ...)
-     POST  = (LINE VIRT STATE ACCT AMT COST? NOTE?)     AMT = (TEXT FLAGS SYM? QTY)
+     XACTS = ((LINE Y M D STATE CODE? PAYEE NOTE? META (POST ...)) ...)
+     POST  = (LINE VIRT STATE ACCT AMT COST? NOTE? META-ON-THE-LINE META-ON-LATER-LINES)
+     AMT   = (TEXT FLAGS SYM? QTY)          META = ((OVERWRITE KEY VALUE?) ...) in source order
      X?    = () | (HEX)        strings are hex, "-" is the empty string
    (enc ID HEX)   -> "ID enc EMACS CSVQ CSVRFC JOIN XML"          the escaping functions alone
    (read rfc|bs|xml|lisp|xmltags ID HEX) -> "ID read ..." what the reader specification recovers, or "ID read none" *)
@@ -22,18 +23,23 @@ let amt_of = function
   | L [A t; A f; s; A q] -> { a_text = hx t; a_flags = hx f; a_sym = opt s; a_qty = hx q }
   | _ -> failwith "amt"
 
+let meta_of = function
+  | L es -> List.map (function L [ow; A k; v] -> ((batom ow, hx k), opt v) | _ -> failwith "meta") es
+  | _ -> failwith "meta list"
+
 let post_of = function
-  | L [ln; v; st; A acct; a; c; n] ->
+  | L [ln; v; st; A acct; a; c; n; mi; ml] ->
     { p_line = zatom ln; p_virtual = zatom v; p_state = zatom st; p_account = hx acct;
       p_amount = amt_of a;
       p_cost = (match c with L [] -> None | L [x] -> Some (amt_of x) | _ -> failwith "cost");
-      p_note = opt n }
+      p_note = opt n; p_meta_inline = meta_of mi; p_meta_later = meta_of ml }
   | _ -> failwith "post"
 
 let xact_of = function
-  | L [ln; y; m; d; st; c; A payee; n; L posts] ->
+  | L [ln; y; m; d; st; c; A payee; n; xm; L posts] ->
     { x_line = zatom ln; x_year = zatom y; x_month = zatom m; x_day = zatom d; x_state = zatom st;
-      x_code = opt c; x_payee = hx payee; x_note = opt n; x_posts = List.map post_of posts }
+      x_code = opt c; x_payee = hx payee; x_note = opt n; x_meta = meta_of xm;
+      x_posts = List.map post_of posts }
   | _ -> failwith "xact"
 
 let rec show_sexp = function
